@@ -174,6 +174,23 @@ def r6_option_mirror(rep, facts):
                 n += 1
                 ok = 'visit_some' in names and 'visit_none' not in names or bool(names & {'deserialize_option'})
                 rep.check(R, f'{imp["self_ty"]}|deserialize_option', ok, 'visit_some', f'`{it["def"]}` calls {sorted(x for x in names if x and x.startswith("visit_"))}: a present value is read back as None', facts.loc(b))
+    # the other shape-specific hooks: an explicit deserialize_enum / deserialize_newtype_struct presents the shape through the visitor hook of the
+    # same kind (visit_enum / visit_newtype_struct) or hands over to an inner deserializer's method of the same name — never to deserialize_any, which
+    # would present an enum key or a newtype as a plain string / value
+    HOOK = {'deserialize_enum': 'visit_enum', 'deserialize_newtype_struct': 'visit_newtype_struct'}
+    for imp in facts.impls:
+        if imp.get('trait') != sm.DE:
+            continue
+        for it in imp['items']:
+            if it['name'] in HOOK and facts.has_body(it['def']):
+                b = facts.body(it['def'])
+                if b.get('x'):
+                    continue
+                names = [x.get('name') for x in walk(b['body']) if x.get('k') == 'mcall']
+                ok = HOOK[it['name']] in names or it['name'] in names
+                rep.check(R, f'{imp["self_ty"]}|{it["name"]}', ok, f'{HOOK[it["name"]]} / inner {it["name"]}',
+                          f'`{it["def"]}` neither calls {HOOK[it["name"]]} nor an inner {it["name"]} (it calls {sorted(set(x for x in names if x and (x.startswith("visit_") or x.startswith("deserialize_"))))}): '
+                          f'values of that shape written by the serializer are no longer read back', facts.loc(b))
     want = 5 if ('toml' in facts.crates and facts.has_body('toml::de::from_str')) else (4 if 'toml' in facts.crates else 3)
     rep.check(R, 'deserialize_option|count', n >= want, f'{n} explicit impls', f'only {n} explicit deserialize_option impls found (expected {want} in this configuration)')
     for d, b in facts.bodies.items():
@@ -202,6 +219,9 @@ def rules(rep, facts):
     r3_promotion(rep, facts)
     r4_container_typing(rep, facts)
     r6_option_mirror(rep, facts)
+    if 'toml' in facts.crates and facts.has_method('serde::ser::Serialize', 'toml::value::Value', 'serialize'):
+        from .rules_c17 import r1_passes
+        r1_passes(rep, facts, rid='C07/R8')
 
 
 def _witnesses(rep):
